@@ -8,10 +8,22 @@ CLAIMED = {
          "Trusts: the reference evaluator (80 lines, DESIGN.md A.1); rule documents arrive as JSON the agent's serde types accept; identity attributes compare as exact strings.", "4 C02"),
  "C03": ("exploration", "pure", "property-based differential testing against a reference authorizer table, constant oracle Forbidden for non-elevated callers / self destination",
          "proxy_authorizer::authorize and get_authorizer on generated (rule set, claims, URL, destination) against the reference table; the C03 statement is asserted directly (non-elevated -> Forbidden on WireServer/HostGAPlugin under every rule set, self destination always Forbidden).",
-         "Pure half only sees the authorizer functions; that the listener calls them with the record's destination and claims is covered by the end-to-end rig (C01).", "4 C03"),
+         "The pure half sees the authorizer functions; the end-to-end half runs the C01 rig restricted to non-elevated records for WireServer/HostGAPlugin and to the self destination (403, zero upstream bytes).", "4 C03"),
  "C04": ("exploration", "pure", "property-based differential testing of the canonical string and MAC against an independent canonicaliser + hand-written HMAC-SHA256; metamorphic single-component changes; two-route agreement",
          "as_sig_input and build_request on generated requests compared byte-for-byte with an independent canonicaliser (exact parameter multiset, either admissible order) and an independent HMAC; both signing routes must agree.",
          "Trusts the statement's description of the canonical string (the real host is not available); header sets only; parameter order is checked up to two admissible lexicographic orders.", "4 C04"),
+ "C01": ("exploration", "e2e", "property-based end-to-end testing through the real listener in a private network namespace: generated policy x attribution record x request against a reference mediation model; bytes counted at mock hosts",
+         "The real ProxyServer on 127.0.0.1:3080, attribution records placed in the stand-in audit map for the client's bound source port, mock metadata hosts on the real addresses. For every generated case: upstream bytes > 0 only if the reference permits the relay, at the recorded destination only; refusal classes get exactly 404/421/403 and zero bytes; authorised requests arrive exactly once.",
+         "Trusts: the stand-in audit map mirrors the kernel map's lookup/remove contract; the reference RBAC/authorizer models; the 500 and unknown-caller classes are not reachable from outside on Linux.", "4 C01"),
+ "C05": ("exploration", "e2e", "property-based end-to-end testing with adversarial header multisets; oracle on the raw bytes captured at the mock host",
+         "Generated requests carrying 0-3 spoofed copies of the three proxy-owned headers in any letter case and position; the raw upstream bytes must contain exactly one claims line (the record's elevation), exactly one current RFC 1123 date line, and on signed requests exactly one verifying authorization line and none of the client's values.",
+         "Trusts the raw HTTP reader of the mock host; date tolerance of 5 s around the harness clock; requests without a latched key or signature-exempt are outside the authorization clause.", "4 C05"),
+ "C14": ("exploration", "e2e", "property-based end-to-end differential testing of both legs (client bytes vs host bytes) incl. concurrent keep-alive connections and keep-alive storms",
+         "Generated exchanges (methods, header multisets, bodies up to the limit as Content-Length or chunked, responses with all three framings, arbitrary write boundaries, late terminators) on 1-6 concurrent keep-alive connections; byte comparison of what the host received and what the client received, modulo the documented exceptions; every response carries the tag of its request.",
+         "Trusts the raw HTTP reader/writer; trailers, 1xx and upgrade are outside the statement and not generated; schedule-dependent failures are searched by storms, not enumerated.", "4 C14"),
+ "C15": ("exploration", "e2e", "property-based end-to-end boundary testing around both size limits with Content-Length and chunked framing",
+         "Body lengths at and around 100 KiB and (for the two exempt uploads in any letter case) 100 MiB, declared or chunked; over the limit: 4xx and zero bytes at the mock; at or under: relayed intact.",
+         "Trusts limit_ref derived from the statement; the 100 MiB class is sampled thinly in the quick tier (about 1% of cases).", "4 C15"),
  "C20": ("exploration", "pure", "exhaustive enumeration of all observation sequences to length 22 + property-based generation of long runs, against a reference automaton and trace predicates",
          "All 2^22 success/failure sequences (every shorter one is a prefix; predicates checked per step) plus generated sequences crossing the 20-failure threshold and the counters' saturation point, and generated notification histories, against a reference automaton, the statement's trace predicates and a reference rate limiter.",
          "Trusts: StatusState::update_state and ServiceState::update_service_state_entry are the only deciders of the reported health / notifications (how service_main uses them is not covered).", "4 C20"),
@@ -50,6 +62,7 @@ m = {
    "add_only": True,
  },
  "engines": [
+   {"name": "e2e", "path": "harness/src/bin/e2e.rs", "serves_properties": ["C01", "C03", "C04", "C05", "C07", "C11", "C13", "C14", "C15"], "kind_free_text": "real ProxyServer in a private network+mount namespace, mock metadata hosts on the real addresses, raw HTTP client with stand-in attribution records; proptest-generated cases"},
    {"name": "pure", "path": "harness/src/bin/pure.rs", "serves_properties": ["C02", "C03", "C04", "C19", "C20"], "kind_free_text": "in-process proptest runners over the agent's public functions with independent reference models"},
  ],
  "checks": checks,
